@@ -651,9 +651,11 @@ func fn0Recv(f *ssa.Function) bool {
 	return f.Signature.Recv() != nil && len(f.Params) > 0
 }
 
+// callerProps: a precondition obligation at a call site is claimed under the caller's
+// function-level props (a caller that tags only individual clauses does not claim them).
 func (vc *VC) callerProps(c *Clause) []string {
 	if fc := vc.eng.contractOf(vc.fn); fc != nil {
-		return vc.allProps(fc)
+		return fc.Props
 	}
 	return c.Props
 }
